@@ -200,6 +200,14 @@ AlphaNodes(z) ==
         nb \in {<<>>} \cup {<<a>> : a \in NodeBiSet(0)} \cup {<<a, b>> : a \in {Bi(2, 2, 3, 0, 0, "")}, b \in NodeBiSet(0)}
                \cup {<<Bi(2, 1, 1, 0, 0, ""), Bi(2, 1, 1, 0, 0, ""), Bi(2, 2, 2, 0, 0, ""), Bi(2, 3, 3, 0, 0, "")>>}})
 
+\* a reduced node alphabet for SEQUENCES of sliders (what one slider's node lists may leave behind for the next):
+\* long and short forms, node bank lists that fail after a good entry
+AlphaNodes2(z) ==
+    SetToSeq({[Slider(<<"L", "A">>) EXCEPT !.nf = nf, !.rep = r, !.snd = 4, !.nbank = nb, !.bi = Bi(2, b, 0, 0, 0, "")] :
+        nf \in {8, 10}, r \in {1, 2}, b \in {0, 3},
+        nb \in {<<>>, <<Bi(2, 2, 3, 0, 0, "")>>, <<Bi(2, 2, 3, 0, 0, ""), [Bi(2, 1, 1, 0, 0, "") EXCEPT !.b1c = "bad"]>>,
+                 <<[Bi(2, 1, 1, 0, 0, "") EXCEPT !.b1c = "bad"]>>, <<Bi(2, 3, 2, 0, 0, ""), Bi(2, 1, 1, 0, 0, ""), Bi(2, 2, 2, 0, 0, "")>>}})
+
 \* (e) path strings: every token string up to a length over a token alphabet
 RECURSIVE TokSeqs(_, _)
 TokSeqs(S, n) == IF n = 0 THEN {<<>>} ELSE LET R == TokSeqs(S, n - 1) IN R \cup {Append(q, x) : q \in R, x \in S}
@@ -238,6 +246,7 @@ Alpha == CASE AlphaName = "typesquick" -> AlphaTypesQuick(0)
            [] AlphaName = "num"        -> AlphaNum(0)
            [] AlphaName = "bank"       -> AlphaBank(0)
            [] AlphaName = "nodes"      -> AlphaNodes(0)
+           [] AlphaName = "nodes2"     -> AlphaNodes2(0)
            [] AlphaName = "pathx"      -> AlphaPathX(AlphaN)
            [] AlphaName = "path"       -> AlphaPath(AlphaN)
            [] AlphaName = "pathr"      -> AlphaPathR(AlphaN)
